@@ -40,7 +40,9 @@ def sources(tier, seed, ctx):
                 b = r.choice(pools[5 - ni])
                 ob = [r.randint(1, b[0] + len(b[1])) for _ in range(nout)]
         shared = n % 2 == 0
-        srcs.append({'a': [a[0], a[1]], 'b': [b[0], b[1]], 'oa': oa, 'ob': ob, 'shared': shared})
+        srcs.append({'a': [a[0], a[1]], 'b': [b[0], b[1]], 'oa': oa, 'ob': ob, 'shared': shared,
+                     # the same input labels declared in another order (inputs correspond by position)
+                     'permute_right_inputs': shared and n % 5 == 0, 'ps': n})
     ctx['gen_note'] = f'{npairs} pairs from U(2,2,T6+OR+NXOR,2)={len(nets)} and U(3,2,4 types,2)={len(n3)}'
     return srcs
 
@@ -58,6 +60,12 @@ def record(src):
     ra = H.rec_from_net((src['a'][0], [(t, o) for t, o in src['a'][1]]), src['oa'], labels=la)
     rb = H.rec_from_net((src['b'][0], [(t, o) for t, o in src['b'][1]]), src['ob'], labels=lb)
     left, right = hist.build(ra), hist.build(rb)
+    if src.get('permute_right_inputs') and right.input_size > 1:
+        order = list(right.inputs)
+        random.Random(src.get('ps', 0)).shuffle(order)
+        if order == list(right.inputs):
+            order.reverse()
+        right.set_inputs(order)
     case = {'kind': 'miter', 'l': project(left), 'r': project(right), 'exc': '', 'eval_exc': '', 'eval_rows': [], 'sat': False, 'sat_exc': '', 'src': src}
     try:
         m = build_miter(left, right)
